@@ -53,6 +53,15 @@ func newCollSession(order string) *collSession { return newCollSessionDir(order,
 
 // outgoing: the peer is not passive; its own FSM (index 0) waits for the connection its TCP connector dials
 func newCollSessionDir(order string, outgoing bool) *collSession {
+	return newCollSessionCfg(order, outgoing, 5*time.Millisecond)
+}
+
+// newCollSessionPause: an active peer whose own FSM pauses that long in Idle before it starts dialling
+func newCollSessionPause(order string, pause time.Duration) *collSession {
+	return newCollSessionCfg(order, true, pause)
+}
+
+func newCollSessionCfg(order string, outgoing bool, reconnect time.Duration) *collSession {
 	s := &collSession{peerIP: net.IPv4(10, 0, 0, 201).To4(), peerAS: 65001, peerID: 201, conns: map[int]*vconn{}}
 	switch order { // the speaker: BGP identifier 100, AS 65000
 	case "localLower":
@@ -81,7 +90,7 @@ func newCollSessionDir(order string, outgoing bool) *collSession {
 	pc := server.PeerConfig{AdminEnabled: true, LocalAS: 65000, PeerAS: s.peerAS, LocalAddress: bnet.IPv4FromOctets(10, 0, 0, 200).Ptr(),
 		PeerAddress: s.peerKey, Passive: !outgoing, VRF: s.vrf, RouterID: 100, HoldTime: 90 * time.Second, KeepAlive: 30 * time.Second, IPv4: af()}
 	if outgoing {
-		pc.ReconnectInterval = 5 * time.Millisecond // the peer's own FSM starts dialling on its own
+		pc.ReconnectInterval = reconnect // the peer's own FSM starts dialling on its own after this pause
 	}
 	if err := s.srv.AddPeer(pc); err != nil {
 		panic("harness: AddPeer: " + err.Error())
